@@ -63,6 +63,14 @@ ASSUMPTIONS = [
 # ------------------------------------------------------------------------------------------
 # helpers
 # ------------------------------------------------------------------------------------------
+_CALIB = None  # calibration aid only: set to a dict by a calibration script to collect the largest residual per class
+
+
+def _rec(name, value):
+    if _CALIB is not None:
+        _CALIB[name] = max(_CALIB.get(name, 0.0), float(value))
+
+
 def _sdp(fn):
     """Call a toqito function that enters a solver; an 'inaccurate' solver warning makes the case inconclusive."""
     with warnings.catch_warnings(record=True) as rec:
@@ -124,35 +132,81 @@ def _make(case, prob=None, pred=None, reps=None):
 # ------------------------------------------------------------------------------------------
 # generators
 # ------------------------------------------------------------------------------------------
-_ON = st.sampled_from([True, True, True, False])
-
-
 @st.composite
-def _support(draw, q):
-    on = [draw(_ON) for _ in range(q)]
-    if not any(on):
-        on[draw(st.integers(0, q - 1))] = True
-    return on
+def _zero_lines(draw, q0, q1):
+    """indices of rows / columns that get probability zero: usually none, never all of them"""
+    mode = draw(st.sampled_from(["none", "none", "row", "none", "col", "none", "both", "none", "two"]))
+    zr, zc = [], []
+    if mode in ("row", "both", "two") and q0 >= 2:
+        zr = [draw(st.integers(0, q0 - 1))]
+    if mode in ("col", "both") and q1 >= 2:
+        zc = [draw(st.integers(0, q1 - 1))]
+    if mode == "two" and q1 >= 3:
+        a = draw(st.integers(0, q1 - 1))
+        b = draw(st.integers(0, q1 - 2))
+        zc = sorted({a, b + 1 if b >= a else b})
+    return zr, zc
+
+
+# every shape with q0, q1 in 1..5; the order only steers Hypothesis (which favours the ends of a list) towards shapes
+# on which the quantum and classical values can differ, and the shrinker towards 2x2
+_SHAPES = [(2, 2), (2, 3), (3, 2), (3, 3), (3, 4), (4, 3), (4, 4), (2, 4), (4, 2), (4, 5), (5, 4), (5, 5), (1, 2), (2, 1), (1, 3),
+           (3, 1), (1, 1), (1, 4), (4, 1), (1, 5), (5, 1), (2, 5), (5, 2), (3, 5), (5, 3)]  # fmt: skip
 
 
 @st.composite
 def _xor_case(draw, qmax=5, cells_max=25, with_tol=True):
-    q0 = draw(st.integers(1, qmax))
-    q1 = draw(st.integers(1, min(qmax, max(1, cells_max // q0))))
-    if draw(st.booleans()):
-        q0, q1 = q1, q0
-    rows, cols = draw(_support(q0)), draw(_support(q1))
-    cells = [(x, y) for x in range(q0) for y in range(q1) if rows[x] and cols[y]]
-    m = draw(st.sampled_from([3, 6, 6, 10]))
-    allow_zero = True if 2**m < len(cells) else draw(st.booleans())
-    cnt = draw(gen.dyadic_probs(len(cells), m=m, allow_zero=allow_zero))
+    shapes = [s for s in _SHAPES if max(s) <= qmax and s[0] * s[1] <= cells_max]
+    q0, q1 = draw(st.sampled_from(shapes + [s for s in shapes if min(s) > 1]))  # shapes with a side of 1 at half weight
+    zr, zc = draw(_zero_lines(q0, q1))
+    cells = [(x, y) for x in range(q0) for y in range(q1) if x not in zr and y not in zc]
+    n = len(cells)
+    srcs = ["prng", "prng", "cuts"] + (["uniform"] if n in (1, 2, 4, 8, 16) else [])
+    src = draw(st.sampled_from(srcs))
+    case = {"src": src}
+    if src == "cuts":
+        # stars and bars, drawn cut by cut (shrinks to readable matrices)
+        m = draw(st.sampled_from([6, 3, 10]))
+        allow_zero = True if 2**m < n else draw(st.booleans())
+        cnt = draw(gen.dyadic_probs(n, m=m, allow_zero=allow_zero))
+    elif src == "uniform":
+        m = 6
+        cnt = [2**m // n] * n
+    else:
+        # multinomial counts from a drawn seed: generic-position distributions, flat (Dirichlet alpha = 8) to spiky (alpha = 0.5)
+        m = draw(st.sampled_from([10, 6]))
+        alpha = draw(st.sampled_from([2.0, 8.0, 1.0, 0.5]))
+        seed = draw(gen.SEED)
+        g = gen.rng(seed)
+        cnt = g.multinomial(2**m, g.dirichlet(alpha * np.ones(n))).tolist()
+        case.update(seed=seed, alpha=alpha)
     counts = [[0] * q1 for _ in range(q0)]
     for (x, y), c in zip(cells, cnt):
         counts[x][y] = int(c)
-    pred = [[draw(st.integers(0, 1)) for _ in range(q1)] for _ in range(q0)]
-    case = {"counts": counts, "m": m, "pred": pred}
+    pk = draw(st.sampled_from(["ip", "bits", "prng", "and"]))
+    case["pred_kind"] = pk
+    if pk == "bits":
+        pred = [[draw(st.integers(0, 1)) for _ in range(q1)] for _ in range(q0)]
+    elif pk == "prng":
+        pseed = draw(gen.SEED)
+        pred = gen.rng(pseed).integers(0, 2, size=(q0, q1)).tolist()
+        case["pseed"] = pseed
+    else:
+        # frustrated predicates (quantum > classical for balanced distributions), hidden behind drawn local flips:
+        # "and": f = bx[x] & by[y] (CHSH with repeated questions), "ip": f = <bits(x), bits(y)> mod 2 (Hadamard game)
+        pseed = draw(gen.SEED)
+        case["pseed"] = pseed
+        g = gen.rng(pseed)
+        rx, cy = g.integers(0, 2, size=q0), g.integers(0, 2, size=q1)
+        if pk == "and":
+            bx, by = g.permutation(np.arange(q0) % 2), g.permutation(np.arange(q1) % 2)
+            pred = [[int((bx[x] & by[y]) ^ rx[x] ^ cy[y]) for y in range(q1)] for x in range(q0)]
+        else:
+            px, py = g.permutation(q0), g.permutation(q1)
+            pred = [[int((bin(int(px[x]) & int(py[y])).count("1") & 1) ^ rx[x] ^ cy[y]) for y in range(q1)] for x in range(q0)]
+    case.update(counts=counts, m=m, pred=pred)
     if with_tol:
-        case["tol"] = draw(st.sampled_from([None, None, 1e-12, 1e-8, 1e-4]))
+        case["tol"] = draw(st.sampled_from([None, 1e-8, None, 1e-12, 1e-4]))
         case["form"] = draw(st.sampled_from(["kw", "pos"]))
         case["explicit_reps"] = draw(st.booleans())
     return case
@@ -203,6 +257,8 @@ def check_tsirelson(case):
     qv = _sdp(g.quantum_value)
     _finite(qv, "quantum_value")
     w_lo, w_hi = 0.5 + lb / 2, 0.5 + ub / 2
+    _rec("tsirelson: toqito outside certified interval", max(w_lo - qv, qv - w_hi, 0))
+    _rec("tsirelson: certificate width", w_hi - w_lo)
     req(
         qv >= w_lo - TOL_EQ,
         f"quantum_value {qv:.7f} is below the value {w_lo:.7f} achieved by explicit unit vectors (dual bound {w_hi:.7f})",
@@ -226,12 +282,14 @@ def check_npa1(case):
     ng = g.to_nonlocal_game()
     npa = _sdp(lambda: ng.commuting_measurement_value_upper_bound(1) if case.get("k_explicit") else ng.commuting_measurement_value_upper_bound())
     _finite(npa, "npa1")
+    _rec("npa1: outside certified interval", max(w_lo - npa, npa - w_hi, 0))
     req(
         w_lo - TOL_EQ <= npa <= w_hi + TOL_EQ,
         f"NPA level 1 of to_nonlocal_game() = {npa:.7f} but the Tsirelson optimum is certified in [{w_lo:.7f}, {w_hi:.7f}]",
         "npa1!=tsirelson",
     )
     qv = _sdp(g.quantum_value)
+    _rec("npa1: |quantum_value - npa1|", abs(qv - npa))
     req(abs(qv - npa) <= 2 * TOL_EQ, f"quantum_value {qv:.7f} != NPA level 1 of the converted game {npa:.7f}", "quantum!=npa1")
 
 
@@ -250,6 +308,7 @@ def check_classical(case):
     wc = 0.5 + H.classical_bias(H.d_matrix(prob, pred)) / 2
     g = _make(case, reps=1)
     cv = float(g.classical_value())
+    _rec("classical: |toqito - brute force|", abs(cv - wc))
     req(abs(cv - wc) <= TOL_EXACT, f"XORGame.classical_value {cv!r} != max over +/-1 assignments {wc!r}", "classical!=bruteforce")
     cv2 = float(g.to_nonlocal_game().classical_value())
     req(abs(cv2 - wc) <= TOL_EXACT, f"to_nonlocal_game().classical_value {cv2!r} != max over +/-1 assignments {wc!r}", "converted-classical!=bruteforce")
@@ -263,10 +322,12 @@ def check_nonsignaling(case):
     if which == "xor" or small:
         ns = _sdp(g.nonsignaling_value)
         _finite(ns, "nonsignaling_value")
+        _rec("ns: |value - 1|", abs(ns - 1))
         req(abs(ns - 1.0) <= TOL_EQ, f"XORGame.nonsignaling_value = {ns:.7f}, the non-signalling value of an XOR game is 1", "ns!=1")
     if which == "conv" or small:
         ns2 = _sdp(g.to_nonlocal_game().nonsignaling_value)
         _finite(ns2, "nonsignaling_value")
+        _rec("ns: |value - 1|", abs(ns2 - 1))
         req(abs(ns2 - 1.0) <= TOL_EQ, f"to_nonlocal_game().nonsignaling_value = {ns2:.7f}, expected 1", "converted-ns!=1")
 
 
@@ -285,6 +346,8 @@ def check_order(case):
     qv = _sdp(g.quantum_value)
     _finite(qv, "quantum_value")
     cv = float(g.classical_value())
+    _rec("order: classical - quantum", max(cv - qv, 0))
+    _rec("order: qbias - K_G cbias", max(2 * qv - 1 - H.K_G * (2 * cv - 1), 0))
     req(cv <= qv + TOL_ORD, f"classical value {cv:.6f} > quantum value {qv:.6f}", "classical>quantum")
     req(
         2 * qv - 1 <= H.K_G * (2 * cv - 1) + TOL_ORD,
@@ -321,6 +384,7 @@ def check_reps(case):
         qv = _sdp(g.quantum_value)
         _finite(qv, "quantum_value")
         vals[r] = qv
+        _rec(f"reps{r}: outside certified power interval", max(w_lo**r - qv, qv - w_hi**r, 0))
         req(
             w_lo**r - r * TOL_EQ <= qv <= w_hi**r + r * TOL_EQ,
             f"XORGame(reps={r}).quantum_value() = {qv:.7f} but (certified optimum)^{r} lies in [{w_lo**r:.7f}, {w_hi**r:.7f}]",
@@ -332,10 +396,13 @@ def check_reps(case):
         c2 = float(ng2.classical_value())
         p2, v2 = H.product_game(prob, H.xor_pred(pred), 2)
         c2_ref = H.general_classical_value(p2, v2)
+        _rec("reps: |classical(G^2) - brute force|", abs(c2 - c2_ref))
         req(abs(c2 - c2_ref) <= TOL_EXACT, f"classical value of the 2-fold game {c2!r} != brute force on the reference product game {c2_ref!r}", "classical(G^2)")
         req(c2 <= vals[2] + TOL_ORD, f"classical(G^2) = {c2:.6f} > quantum value of the repeated game {vals[2]:.6f}", "classical(G^2)>quantum^2")
         n2 = _sdp(lambda: ng2.commuting_measurement_value_upper_bound(1))
         _finite(n2, "npa1")
+        _rec("reps: quantum^2 - npa1(G^2)", max(vals[2] - n2, 0))
+        _rec("reps: classical(G^2) - quantum^2", max(c2 - vals[2], 0))
         req(vals[2] <= n2 + TOL_ORD, f"quantum value of the repeated game {vals[2]:.6f} > NPA_1(G^2) = {n2:.6f}", "quantum^2>npa1(G^2)")
 
 
@@ -395,9 +462,9 @@ def _valid_case(draw):
     case = draw(_xor_case())
     counts = np.array(case["counts"])
     q0, q1 = counts.shape
-    kinds = ["ok", "unnormalised", "negative-sum-not-1", "shape"]
+    kinds = ["shape", "unnormalised", "negative-sum-not-1", "ok"]
     if counts.size >= 2:
-        kinds += ["negative-sum-1"]
+        kinds = ["negative-sum-1"] + kinds
     kind = draw(st.sampled_from(kinds))
     case["kind"] = kind
     total = 2 ** case["m"]
@@ -482,32 +549,57 @@ def nt_valid(case):
 _VALS = [[1, -1], [-1, 1], [0, 1], [1, 0]]
 
 
+def _chsh_pattern(draw):
+    """odd-parity sign pattern (the CHSH family) with drawn magnitudes in quarters"""
+    mags = [[draw(st.integers(1, 8)) / 4 for _ in range(2)] for _ in range(2)]
+    neg = [draw(st.integers(0, 1)), draw(st.integers(0, 1))]
+    sg = [[1, 1], [1, -1]]
+    return [[mags[x][y] * sg[x][y] * (-1) ** (neg[0] * x + neg[1] * y) for y in range(2)] for x in range(2)]
+
+
 @st.composite
 def _bell_case(draw):
-    src = draw(st.sampled_from(["small", "prng", "chsh"]))
+    src = draw(st.sampled_from(["small", "prng", "chsh", "ch"]))
     case = {"src": src}
-    if src == "small":
-        case["J"] = [[draw(st.integers(-3, 3)) for _ in range(2)] for _ in range(2)]
-    elif src == "prng":
-        case["seed"] = draw(gen.SEED)
+    if src in ("chsh", "ch"):
+        J = _chsh_pattern(draw)
+        if draw(st.booleans()):
+            ac = [draw(st.integers(-2, 2)) / 8 for _ in range(2)]
+            bc = [draw(st.integers(-2, 2)) / 8 for _ in range(2)]
+        else:
+            ac, bc = [0.0, 0.0], [0.0, 0.0]
+        if src == "chsh":
+            case.update(J=J, ac=ac, bc=bc, marg="small")
+            case["av"] = draw(st.sampled_from(_VALS[:2]))
+            case["bv"] = draw(st.sampled_from(_VALS[:2]))
+        else:
+            # the same expression rewritten for 0/1-valued outcomes (A = 1 - 2 A'), constant dropped: Clauser-Horne form
+            Jn = np.array(J)
+            case.update(
+                J=(4 * Jn).tolist(),
+                ac=(-2 * (Jn.sum(axis=1) + np.array(ac))).tolist(),
+                bc=(-2 * (Jn.sum(axis=0) + np.array(bc))).tolist(),
+                marg="small",
+            )
+            case["av"] = [0, 1]
+            case["bv"] = [0, 1]
     else:
-        # odd-parity sign pattern (the CHSH family) with drawn magnitudes in quarters
-        mags = [[draw(st.integers(1, 8)) / 4 for _ in range(2)] for _ in range(2)]
-        neg = [draw(st.integers(0, 1)), draw(st.integers(0, 1))]
-        sg = [[1, 1], [1, -1]]
-        case["J"] = [[mags[x][y] * sg[x][y] * (-1) ** (neg[0] * x + neg[1] * y) for y in range(2)] for x in range(2)]
-    marg = draw(st.sampled_from(["zero", "small", "prng"]))
-    case["marg"] = marg
-    if marg == "small":
-        div = draw(st.sampled_from([1, 2, 4]))
-        case["ac"] = [draw(st.integers(-3, 3)) / div for _ in range(2)]
-        case["bc"] = [draw(st.integers(-3, 3)) / div for _ in range(2)]
-    elif marg == "prng":
-        case["mseed"] = draw(gen.SEED)
-        case["mscale"] = draw(st.sampled_from([0.25, 1.0]))
-    same = draw(st.booleans())
-    case["av"] = draw(st.sampled_from(_VALS))
-    case["bv"] = case["av"] if same else draw(st.sampled_from(_VALS))
+        if src == "small":
+            case["J"] = [[draw(st.integers(-3, 3)) for _ in range(2)] for _ in range(2)]
+        else:
+            case["seed"] = draw(gen.SEED)
+        marg = draw(st.sampled_from(["zero", "small", "prng"]))
+        case["marg"] = marg
+        if marg == "small":
+            div = draw(st.sampled_from([1, 2, 4]))
+            case["ac"] = [draw(st.integers(-3, 3)) / div for _ in range(2)]
+            case["bc"] = [draw(st.integers(-3, 3)) / div for _ in range(2)]
+        elif marg == "prng":
+            case["mseed"] = draw(gen.SEED)
+            case["mscale"] = draw(st.sampled_from([0.25, 1.0]))
+        same = draw(st.booleans())
+        case["av"] = draw(st.sampled_from(_VALS))
+        case["bv"] = case["av"] if same else draw(st.sampled_from(_VALS))
     case["int_dtype"] = draw(st.booleans())
     case["sseed"] = draw(gen.SEED)
     case["deep"] = draw(st.sampled_from([False, False, False, True]))
@@ -555,6 +647,11 @@ def check_bell(case):
     scale = max(1.0, info["scale"])
     tol = TOL_BELL * scale
     cl = info["classical"]
+    _rec("bell: (achieved - toqito)/scale", max(max(nm, lo if lo is not None else -np.inf) - val, 0) / scale)
+    if hi is not None:
+        _rec("bell: (toqito - certified upper)/scale", max(val - hi, 0) / scale)
+        _rec("bell: certificate width/scale", (hi - lo) / scale)
+        _rec("bell: (nm search - certified upper)/scale", (nm - hi) / scale + 1)
     req(val >= cl - tol, f"bell_inequality_max = {val:.6f} is below the best deterministic assignment {cl:.6f}", "bell<deterministic")
     best = max(nm, lo if lo is not None else -np.inf)
     req(val >= best - tol, f"bell_inequality_max = {val:.6f} is below a value achieved by an explicit two-qubit strategy {best:.6f} (deterministic {cl:.6f})", "bell<achieved")
@@ -591,10 +688,7 @@ def _bell_corr_case(draw):
     elif src == "prng":
         case["seed"] = draw(gen.SEED)
     elif src == "chsh":
-        mags = [[draw(st.integers(1, 8)) / 4 for _ in range(2)] for _ in range(2)]
-        neg = [draw(st.integers(0, 1)), draw(st.integers(0, 1))]
-        sg = [[1, 1], [1, -1]]
-        case["J"] = [[mags[x][y] * sg[x][y] * (-1) ** (neg[0] * x + neg[1] * y) for y in range(2)] for x in range(2)]
+        case["J"] = _chsh_pattern(draw)
     else:
         # the D matrix of a 2x2 XOR game: the Bell value is then exactly the game's quantum bias
         cnt = draw(gen.dyadic_probs(4, m=6))
@@ -629,6 +723,7 @@ def check_bell_tsirelson(case):
     _finite(val, "bell_inequality_max")
     scale = max(1.0, float(np.abs(J).sum()))
     tol = TOL_BELL * scale
+    _rec("bell_tsirelson: outside certified interval/scale", max(lb - val, val - ub, 0) / scale)
     req(val >= lb - tol, f"bell_inequality_max = {val:.6f} is below the correlation value {lb:.6f} achieved by explicit unit vectors (Tsirelson)", "bell<tsirelson")
     req(val <= ub + tol, f"bell_inequality_max = {val:.6f} exceeds the Tsirelson optimum of the coefficient matrix, certified <= {ub:.6f}", "bell>tsirelson")
     if case["src"] == "xor":
